@@ -184,14 +184,21 @@ fn for_small_cases(ctx: &mut Ctx, k_full: u32, l_full: usize, k_sub: u32, l_sub:
                         c.oe = oe;
                         c.ns = ns;
                         c.ne = ne;
-                        // offset lookup on every other case: lookup indices start at 2 / 3
-                        if (os + 2 * oe + 3 * ns + 5 * ne) % 2 == 1 {
-                            c.o_off = 2;
-                            c.n_off = 3;
-                            c.os += 2;
-                            c.oe += 2;
-                            c.ns += 3;
-                            c.ne += 3;
+                        // offset lookup on every other case: lookup indices start at 2 / 3, or at the
+                        // very top of the index space (ranges ending at usize::MAX - 1 / - 2)
+                        let sel = os + 2 * oe + 3 * ns + 5 * ne;
+                        if sel % 2 == 1 {
+                            let (oo, no) = if sel % 6 == 1 {
+                                (usize::MAX - 1 - old.len(), usize::MAX - 2 - new.len())
+                            } else {
+                                (2, 3)
+                            };
+                            c.o_off = oo;
+                            c.n_off = no;
+                            c.os += oo;
+                            c.oe += oo;
+                            c.ns += no;
+                            c.ne += no;
                         }
                         f(ctx, c);
                     }
@@ -230,6 +237,47 @@ fn random_cases(ctx: &mut Ctx, count: usize, max_size: usize, tag: u64, mut f: i
     }
 }
 
+/// the SAME buffer passed as old and as new, with arbitrary sub-range pairs (plain `u32` items:
+/// comparisons cannot be counted, the answer carries `c=- p=-`)
+fn self_diff_cases(ctx: &mut Ctx, k: u32, l: usize) {
+    use similar::algorithms::diff;
+    for buf in gen::all_seqs(k, l) {
+        for alg in ALGS {
+            for (os, oe) in gen::subranges(buf.len()) {
+                for (ns, ne) in gen::subranges(buf.len()) {
+                    if !ctx.take() {
+                        continue;
+                    }
+                    let mut c = Case::full(alg, &buf, &buf);
+                    c.os = os;
+                    c.oe = oe;
+                    c.ns = ns;
+                    c.ne = ne;
+                    let req = c.request();
+                    let b = buf.clone();
+                    let r = std::panic::catch_unwind(move || {
+                        let mut h = obs::RecHook::new(None);
+                        let r = diff(alg, &mut h, &b[..], os..oe, &b[..], ns..ne);
+                        (r.is_ok(), h.trace)
+                    });
+                    let out = match r {
+                        Ok((true, trace)) => Outcome { status: Status::Ok, trace, cmps: 0, same_cmps: 0, probes: 0, at_expiry: None },
+                        Ok((false, trace)) => Outcome { status: Status::HookErr, trace, cmps: 0, same_cmps: 0, probes: 0, at_expiry: None },
+                        Err(_) => Outcome { status: Status::Panic, trace: vec![], cmps: 0, same_cmps: 0, probes: 0, at_expiry: None },
+                    };
+                    let shown = match out.status {
+                        Status::Ok => format!("ok T={} c=- p=-", proto::show_calls(&out.trace)),
+                        _ => out.show(),
+                    };
+                    ctx.emit(&req, &shown);
+                    ctx.count("raw.self_diff_cases");
+                    check_raw(ctx, &c, &out, &req);
+                }
+            }
+        }
+    }
+}
+
 pub fn suite_raw(ctx: &mut Ctx) {
     let (kf, lf, ks, ls, nrand, maxsz) = match ctx.tier {
         Tier::Quick => (3, 4, 2, 3, 3000, 60),
@@ -251,6 +299,7 @@ pub fn suite_raw(ctx: &mut Ctx) {
             check_shift(ctx, &c, &out, &req, "C01");
         }
     });
+    self_diff_cases(ctx, 2, if ctx.tier == Tier::Quick { 4 } else { 5 });
 }
 
 /* ------------------------------------------------------------------------------------------ */
